@@ -44,7 +44,7 @@ CONSTANTS
   HoldNodes,      \* watchers whose callback may block (subset of WatchNodes)
   AllowRestart, AllowGarbage, AllowPartition, AllowJunkPP,
   ConsumeNet,     \* TRUE: a delivered packet leaves the network unless the adversary pays for a duplicate
-  Ideal,          \* TRUE: what the property demands; FALSE: the code's silent in-place tombstone collection (finding F6)
+  Ideal,          \* TRUE: what the property demands; FALSE: the code's silent in-place tombstone collection (finding F7)
   Ghost,          \* maintain the ghost variables inval / written / fwd
   Record,         \* maintain hist (behaviour generation)
   Quiesce,        \* run phase is followed by the deterministic quiescence suffix
@@ -59,9 +59,9 @@ LEFT == "LEFT"
 Absent == [ts |-> -1, st |-> "ABSENT"]
 Entry  == [ts : 0..MaxClock, st : LiveStates \cup {LEFT}]
 Desc   == [Inst -> Entry \cup {Absent}]
-Empty  == [i \in Inst |-> Absent]
+Empty  == TLCEval([i \in Inst |-> Absent])
 Ids(d) == {i \in Inst : d[i] # Absent}
-Strip(d) == [i \in Inst |-> IF d[i].st = LEFT THEN Absent ELSE d[i]]
+Strip(d) == TLCEval([i \in Inst |-> IF d[i].st = LEFT THEN Absent ELSE d[i]])
 NoLeft(d) == \A i \in Inst : d[i].st # LEFT
 
 VARIABLES
@@ -80,38 +80,57 @@ VARIABLES
   hist       \* behaviour so far (Record)
 
 vars == <<clock, store, queueL, queueG, watch, sent, cut, ncas, nfault, phase, qidx, inval, fwd, written, hist>>
-view == <<clock, store, queueL, queueG, watch, sent, cut, ncas, nfault, phase, qidx, written>>
+(* The exhaustive configurations identify states that differ only in the ghosts inval/fwd, in hist, and *)
+(* in version numbers: a version is only ever compared by Invalidates(b, o) with b the broadcast being  *)
+(* queued, whose version is larger than every queued one (VersionCountsChanges, TypeOK), so versions do *)
+(* not influence any other variable.                                                                    *)
+NoVer(q) == {[chg |-> b.chg, left |-> b.left] : b \in q}
+view == <<clock, [n \in Node |-> <<store[n].val, store[n].ver > 0, NoVer(queueL[n]), NoVer(queueG[n])>>],
+          watch, sent, cut, ncas, nfault, phase, qidx, written>>
 
 -----------------------------------------------------------------------------
-(* ring.Desc.mergeWithTime, entries without token conflicts *)
+(* TLC re-evaluates LET-bound expressions at every use; values that are used more than once are *)
+(* therefore bound through a singleton set (evaluated once).                                     *)
+Only(S) == CHOOSE x \in S : TRUE
+
+(* ring.Desc.mergeWithTime, entries without token conflicts: per entry [r = resulting entry, u = updated] *)
+EntryMerge(me, ot, cas, now) ==
+  IF /\ ot # Absent
+     /\ \/ me = Absent
+        \/ ot.ts > me.ts
+        \/ ot.ts = me.ts /\ me.st # LEFT /\ ot.st = LEFT
+  THEN [r |-> ot, u |-> TRUE]
+  ELSE IF cas /\ ot = Absent /\ me # Absent /\ me.st # LEFT
+       THEN [r |-> [ts |-> now, st |-> LEFT], u |-> TRUE]      \* missing from a local CAS result: tombstone stamped now
+       ELSE [r |-> me, u |-> FALSE]
 Merge(mine, other, cas, now) ==
-  LET upd(i)  == /\ other[i] # Absent
-                 /\ \/ mine[i] = Absent
-                    \/ other[i].ts > mine[i].ts
-                    \/ other[i].ts = mine[i].ts /\ mine[i].st # LEFT /\ other[i].st = LEFT
-      tomb(i) == cas /\ other[i] = Absent /\ mine[i] # Absent /\ mine[i].st # LEFT
-      res == [i \in Inst |-> IF upd(i) THEN other[i]
-                             ELSE IF tomb(i) THEN [ts |-> now, st |-> LEFT] ELSE mine[i]]
-  IN [result |-> res, change |-> [i \in Inst |-> IF upd(i) \/ tomb(i) THEN res[i] ELSE Absent]]
+  Only({ [result |-> TLCEval([i \in Inst |-> pe[i].r]),
+          change |-> TLCEval([i \in Inst |-> IF pe[i].u THEN pe[i].r ELSE Absent])]
+         : pe \in {TLCEval([i \in Inst |-> EntryMerge(mine[i], other[i], cas, now)])} })
 
 (* Desc.RemoveTombstones(now - Retention): strictly older than the limit *)
 Expired(e, now) == Retention > 0 /\ e.st = LEFT /\ e.ts < now - Retention
-GCd(d, now) == [i \in Inst |-> IF Expired(d[i], now) THEN Absent ELSE d[i]]
+GCd(d, now) == TLCEval([i \in Inst |-> IF Expired(d[i], now) THEN Absent ELSE d[i]])
 
 (* KV.mergeValueForKey (Deleted flag not modelled).  Returns the new store cell, the change to *)
 (* broadcast (Empty = none), whether watchers are notified, and whether this was the path on   *)
-(* which everything that came in was an expired tombstone (finding F6).                        *)
-MV(s, inc, cas, now) ==
-  LET m  == IF s.ver = 0 THEN [result |-> inc, change |-> inc] ELSE Merge(s.val, inc, cas, now)
-      r  == GCd(m.result, now)
-      c  == GCd(m.change, now)
-      no == [st |-> s, chg |-> Empty, changed |-> FALSE, silent |-> FALSE]
+(* which everything that came in was an expired tombstone (finding F7).                        *)
+MVBody(s, m, r, c) ==
+  LET no  == [st |-> s, chg |-> Empty, changed |-> FALSE, silent |-> "-"]
+      \* everything that came in was an expired tombstone: Merge has already applied it to the stored value in
+      \* place and RemoveTombstones has collected it again (together with every other expired tombstone)
+      tag == IF Ids(c) # {} THEN "-" ELSE IF Strip(r) # Strip(s.val) THEN "silentgc" ELSE "quietgc"
   IN IF Ids(m.change) = {} THEN no
-     ELSE IF Ids(c) = {}
-          THEN IF s.ver = 0 \/ r = s.val THEN no
-               ELSE IF Ideal THEN [st |-> [val |-> r, ver |-> s.ver + 1], chg |-> Empty, changed |-> TRUE, silent |-> TRUE]
-                             ELSE [st |-> [val |-> r, ver |-> s.ver],     chg |-> Empty, changed |-> FALSE, silent |-> TRUE]
-          ELSE [st |-> [val |-> r, ver |-> s.ver + 1], chg |-> c, changed |-> TRUE, silent |-> FALSE]
+     ELSE IF Ideal \/ Ids(c) # {}
+          THEN \* Merge reported a change: new version, watchers notified, the post-collection change (if any) gossiped
+               [st |-> [val |-> r, ver |-> s.ver + 1], chg |-> c, changed |-> TRUE, silent |-> tag]
+          ELSE \* finding F7, the code before its fix: "no change" is returned although the stored value was edited
+               \* in place - a live entry can vanish from readers without version bump or notification
+               IF s.ver = 0 THEN no
+               ELSE [st |-> [val |-> r, ver |-> s.ver], chg |-> Empty, changed |-> FALSE, silent |-> tag]
+MV(s, inc, cas, now) ==
+  Only({ Only({ MVBody(s, m, rc[1], rc[2]) : rc \in {<<GCd(m.result, now), GCd(m.change, now)>>} })
+         : m \in {IF s.ver = 0 THEN [result |-> inc, change |-> inc] ELSE Merge(s.val, inc, cas, now)} })
 
 ReadOf(s) == Strip(s.val)          \* KV.get: clone + RemoveTombstones(zero time); nil and empty coincide
 Read(n)   == ReadOf(store[n])
@@ -141,12 +160,12 @@ Apply(f, in, now) ==
 After(n, r, local) ==
   LET b == [chg |-> r.chg, ver |-> r.st.ver, left |-> T]
       q == Ids(r.chg) # {}
-  IN [st |-> r.st,
+  IN TLCEval([st |-> r.st,
       w  |-> IF r.changed /\ n \in WatchNodes THEN Notify(watch[n], ReadOf(r.st)) ELSE watch[n],
       ql |-> IF q /\ local THEN Enq(queueL[n], b) ELSE queueL[n],
       qg |-> IF q /\ ~local THEN Enq(queueG[n], b) ELSE queueG[n],
       kill |-> IF ~q THEN {} ELSE {[o |-> o.chg, b |-> r.chg] : o \in Killed(IF local THEN queueL[n] ELSE queueG[n], b)},
-      fwd  |-> IF q THEN {[n |-> n, chg |-> r.chg, local |-> local]} ELSE {}]
+      fwd  |-> IF q THEN {[n |-> n, chg |-> r.chg, local |-> local]} ELSE {}])
 
 Proj(st, ql, qg, w, clk) ==
   [clock |-> clk,
@@ -183,27 +202,34 @@ Tick ==
   /\ NoGhost
   /\ Log([R0 EXCEPT !.a = "Tick"])
 
+(* Workload proviso (the one of C03): an instance's entry never gets two different live contents  *)
+(* with the same timestamp - in dskit an entry is written by its own lifecycler only, and a second *)
+(* write within the same second is "no change".  Removals are exempt (LEFT wins ties).             *)
+OneContentPerSecond(chg) ==
+  \A i \in Ids(chg) : \A w \in written :
+     (w[1] = i /\ w[2].ts = chg[i].ts /\ w[2].st # LEFT /\ chg[i].st # LEFT) => w[2] = chg[i]
+
 Cas(n, f) ==
   /\ ncas < MaxCas
   /\ ncas' = ncas + 1
-  /\ LET in  == Read(n)
-         ap  == Apply(f, in, clock)
-         r   == MV(store[n], ap.d, store[n].ver > 0, clock)
-         x   == After(n, r, TRUE)
-         res == IF ~ap.ok THEN "nil" ELSE IF r.changed THEN "ok" ELSE "nochange"
-     IN IF ap.ok /\ r.changed
-        THEN /\ store'  = [store  EXCEPT ![n] = x.st]
-             /\ watch'  = [watch  EXCEPT ![n] = x.w]
-             /\ queueL' = [queueL EXCEPT ![n] = x.ql]
-             /\ UNCHANGED queueG
-             /\ GhostStep(x.kill, x.fwd)
-             /\ written' = IF Ghost THEN written \cup {<<i, r.chg[i]>> : i \in Ids(r.chg)} ELSE written
-             /\ UNCHANGED <<clock, sent, cut, nfault, phase, qidx>>
-             /\ Log([R0 EXCEPT !.a = "Cas", !.n = n, !.f = f, !.res = res, !.p = r.chg])
-        ELSE \* f returned nil, or Merge saw no change: CAS sleeps 1 s and retries; the caller gives up
-             /\ UNCHANGED <<clock, store, queueL, queueG, watch, sent, cut, nfault, phase, qidx, written>>
-             /\ NoGhost
-             /\ Log([R0 EXCEPT !.a = "Cas", !.n = n, !.f = f, !.res = res])
+  /\ \E ap \in {Apply(f, Read(n), clock)} :
+     \E r \in {MV(store[n], ap.d, store[n].ver > 0, clock)} :
+     \E x \in {After(n, r, TRUE)} :
+     LET res == IF ~ap.ok THEN "nil" ELSE IF r.changed THEN "ok" ELSE "nochange"
+     IN /\ OneContentPerSecond(r.chg)
+        /\ IF ap.ok /\ r.changed
+           THEN /\ store'  = [store  EXCEPT ![n] = x.st]
+                /\ watch'  = [watch  EXCEPT ![n] = x.w]
+                /\ queueL' = [queueL EXCEPT ![n] = x.ql]
+                /\ UNCHANGED queueG
+                /\ GhostStep(x.kill, x.fwd)
+                /\ written' = written \cup {<<i, r.chg[i]>> : i \in Ids(r.chg)}
+                /\ UNCHANGED <<clock, sent, cut, nfault, phase, qidx>>
+                /\ Log([R0 EXCEPT !.a = "Cas", !.n = n, !.f = f, !.res = res, !.p = r.chg])
+           ELSE \* f returned nil, or Merge saw no change: CAS sleeps 1 s and retries; the caller gives up
+                /\ UNCHANGED <<clock, store, queueL, queueG, watch, sent, cut, nfault, phase, qidx, written>>
+                /\ NoGhost
+                /\ Log([R0 EXCEPT !.a = "Cas", !.n = n, !.f = f, !.res = res])
 
 Dec(q) == {[b EXCEPT !.left = b.left - 1] : b \in {x \in q : x.left > 1}}
 
@@ -224,16 +250,16 @@ Deliver(p, n, keep) ==
        THEN IF keep THEN nfault < MaxFaults /\ nfault' = nfault + 1 /\ sent' = sent
                     ELSE nfault' = nfault /\ sent' = sent \ {p}
        ELSE ~keep /\ nfault' = nfault /\ sent' = sent
-  /\ LET r == MV(store[n], p, FALSE, clock)
-         x == After(n, r, FALSE)
-     IN /\ store'  = [store  EXCEPT ![n] = x.st]
+  /\ \E r \in {MV(store[n], p, FALSE, clock)} :
+     \E x \in {After(n, r, FALSE)} :
+        /\ store'  = [store  EXCEPT ![n] = x.st]
         /\ watch'  = [watch  EXCEPT ![n] = x.w]
         /\ queueG' = [queueG EXCEPT ![n] = x.qg]
         /\ UNCHANGED <<clock, queueL, cut, ncas, phase, qidx, written>>
         /\ GhostStep(x.kill, x.fwd)
         /\ Log([R0 EXCEPT !.a = "Deliver", !.n = n, !.p = p,
                           !.res = IF r.changed THEN "ok" ELSE "nochange",
-                          !.note = IF r.silent THEN "silentgc" ELSE "-"])
+                          !.note = r.silent])
 
 GarbageKinds == {"truncated", "bitflip", "badcodec", "emptykey"}
 DeliverGarbage(p, n, k) ==
@@ -246,17 +272,17 @@ DeliverGarbage(p, n, k) ==
 
 (* memberlist push/pull: both sides take LocalState first, then both merge *)
 PPStep(a, b, junk, name) ==
-  /\ LET ra == IF store[b].ver = 0 THEN MV(store[a], Empty, FALSE, clock) ELSE MV(store[a], store[b].val, FALSE, clock)
-         rb == IF store[a].ver = 0 THEN MV(store[b], Empty, FALSE, clock) ELSE MV(store[b], store[a].val, FALSE, clock)
-         xa == After(a, ra, FALSE)
-         xb == After(b, rb, FALSE)
-     IN /\ store'  = [store  EXCEPT ![a] = xa.st, ![b] = xb.st]
+  /\ UNCHANGED <<clock, queueL, sent, cut, ncas, written>>
+  /\ \E ra \in {IF store[b].ver = 0 THEN MV(store[a], Empty, FALSE, clock) ELSE MV(store[a], store[b].val, FALSE, clock)} :
+     \E rb \in {IF store[a].ver = 0 THEN MV(store[b], Empty, FALSE, clock) ELSE MV(store[b], store[a].val, FALSE, clock)} :
+     \E xa \in {After(a, ra, FALSE)} :
+     \E xb \in {After(b, rb, FALSE)} :
+        /\ store'  = [store  EXCEPT ![a] = xa.st, ![b] = xb.st]
         /\ watch'  = [watch  EXCEPT ![a] = xa.w,  ![b] = xb.w]
         /\ queueG' = [queueG EXCEPT ![a] = xa.qg, ![b] = xb.qg]
         /\ GhostStep(xa.kill \cup xb.kill, xa.fwd \cup xb.fwd)
         /\ Log([R0 EXCEPT !.a = name, !.n = a, !.m = b, !.k = IF junk THEN "junk" ELSE "-",
-                          !.note = IF ra.silent \/ rb.silent THEN "silentgc" ELSE "-"])
-  /\ UNCHANGED <<clock, queueL, sent, cut, ncas, written>>
+                          !.note = IF "silentgc" \in {ra.silent, rb.silent} THEN "silentgc" ELSE IF "quietgc" \in {ra.silent, rb.silent} THEN "quietgc" ELSE "-"])
 
 PushPull(a, b, junk) ==
   /\ a < b /\ a \notin cut /\ b \notin cut
@@ -364,6 +390,30 @@ Next == \/ phase = "run" /\ (~Quiesce \/ Len(hist) < RunDepth) /\ RunNext
 
 Spec == Init /\ [][Next]_vars
 
+(* Behaviour generation (-simulate): the parameters of every action are drawn with RandomElement, *)
+(* so that one step costs one successor instead of the whole fan-out.                             *)
+RE(S) == RandomElement(S)
+RunOK == phase = "run" /\ Len(hist) < RunDepth
+SimNext ==
+  \/ RunOK /\ Tick
+  \/ RunOK /\ \E n \in {RE(Node)}, f \in {RE(Fn)} : Cas(n, f)
+  \/ RunOK /\ \E n \in {RE(Node)}, f \in {RE(Fn)} : Cas(n, f)
+  \/ RunOK /\ \E n \in {RE(Node)} : Gossip(n)
+  \/ RunOK /\ \E n \in {RE(Node)} : Gossip(n)
+  \/ RunOK /\ sent # {} /\ \E p \in {RE(sent)}, n \in {RE(Node)} : Deliver(p, n, FALSE)
+  \/ RunOK /\ sent # {} /\ \E p \in {RE(sent)}, n \in {RE(Node)} : Deliver(p, n, FALSE)
+  \/ RunOK /\ sent # {} /\ \E p \in {RE(sent)}, n \in {RE(Node)} : Deliver(p, n, FALSE)
+  \/ RunOK /\ sent # {} /\ \E p \in {RE(sent)}, n \in {RE(Node)}, k \in {RE(GarbageKinds)} : DeliverGarbage(p, n, k)
+  \/ RunOK /\ \E pr \in {RE({x \in Node \X Node : x[1] < x[2]})} : PushPull(pr[1], pr[2], FALSE)
+  \/ RunOK /\ \E pr \in {RE({x \in Node \X Node : x[1] < x[2]})} : PushPull(pr[1], pr[2], TRUE)
+  \/ RunOK /\ \E n \in {RE(Node)} : WatcherArm(n) \/ WatcherRelease(n)
+  \/ RunOK /\ \E n \in {RE(Node)} : Restart(n)
+  \/ RunOK /\ \E S \in {RE((SUBSET Node) \ {{}, Node})} : Partition(S)
+  \/ RunOK /\ Heal
+  \/ StartQuiesce
+  \/ QStep
+SimSpec == Init /\ [][SimNext]_vars
+
 -----------------------------------------------------------------------------
 (* Invariants and action properties *)
 TypeOK ==
@@ -406,13 +456,15 @@ NoExpiredTombstoneStored ==   \* what a changing merge leaves behind contains no
 (* C06 *)
 RR(s, c) == Merge(s, c, FALSE, 0).result
 Contains(b, o) == \A s \in Desc : RR(RR(s, o), b) = RR(s, b)
-InvalidationSafe == \A x \in inval : Contains(x.b, x.o)
+(* a queued update is superseded only by an update that contains it - up to tombstones that are *)
+(* older than the retention, which every receiver would collect on arrival anyway             *)
+InvalidationSafe == \A x \in inval : Contains(x.b, GCd(x.o, clock))
 
 OnlyChangesForwardedStep ==   \* what is queued is exactly what changed in the store, as it is now in the store
   \A x \in fwd' :
      /\ \A i \in Ids(x.chg) : x.chg[i] = store'[x.n].val[i] /\ x.chg[i] # store[x.n].val[i]
-     /\ \A i \in Inst \ Ids(x.chg) : store'[x.n].val[i] = store[x.n].val[i] \/ Expired(store[x.n].val[i], clock)
-                                      \/ store[x.n].ver = 0
+     /\ \A i \in Inst \ Ids(x.chg) : \/ store'[x.n].val[i] = store[x.n].val[i]
+                                      \/ store'[x.n].val[i] = Absent   \* collected, or killed by an expired tombstone
 OnlyChangesForwarded == [][OnlyChangesForwardedStep]_vars
 
 NoInventedContent ==
